@@ -168,6 +168,7 @@ fn tensor_manual(req: &Value) -> Value {
         let r = match s {
             "sync" => wal.sync().map(|_| ()).map_err(|e| e.to_string()),
             "truncate" => wal.truncate().map_err(|e| e.to_string()),
+            "rotate" => wal.rotate().map_err(|e| e.to_string()),
             _ => wal.append(&ts_rec(s[1..].parse().unwrap_or(0))).map(|_| ()).map_err(|e| e.to_string()),
         };
         if let Err(e) = r {
